@@ -11,11 +11,11 @@ CONSTANTS
   Dts = {250}
   CraftToks = {}
   MaxPresent = 2
-  Calls = {"exchange", "payload", "readdress"}
+  Calls = {"exchange", "payload", "readdress", "deliver"}
   PropsOn <- P_HS
   Export = TRUE
   ExportAll = FALSE
-  ExportOneIn = 10
+  ExportOneIn = 4
 INVARIANT NoFlag
 INVARIANT ExportInv
 VIEW View
